@@ -240,6 +240,16 @@ def c19(payload):
                         _chk(bad, what + ' real', mm.group(1), comp.real, 'e'); _chk(bad, what + ' imaginary', mm.group(2), comp.imag, 'e')
                         _chk(bad, what + ' magnitude', mm.group(3), abs(comp), 'e')
                         _row_consistent(bad, what, [mm.group(k) for k in (1, 2, 3, 4)])
+                        _chk(bad, what + ' phase', mm.group(4), math.degrees(math.atan2(comp.imag, comp.real)) if abs(comp) > 0 else 0.0, 'f') \
+                            if abs(comp) > 1e-30 * max(abs(c_) for c_ in v) and min(abs(comp.real), abs(comp.imag)) > 1e-3 * abs(comp) else None
+                    # the peak line: the largest value |Re (F e^{jwt})| takes over a period = sqrt ((sum |F_i|^2 + |sum F_i^2|) / 2)
+                    mm = re.search(r'MAXIMUM OR PEAK FIELD =\s*(\S+)', ptxt)
+                    if not mm:
+                        bad.append('near-field %s table: no peak line' % nm)
+                    else:
+                        vv = [complex(c_) for c_ in v]
+                        pk = math.sqrt((sum(abs(c_) ** 2 for c_ in vv) + abs(sum(c_ * c_ for c_ in vv))) / 2)
+                        _chk(bad, 'near-field %s peak field' % nm, mm.group(1), pk, 'e')
             r['bad'] = bad
             r['features'] = {}
         except AssertionError:
